@@ -241,7 +241,7 @@ func (ctl *Control) RegisterWorkConn(conn net.Conn) error {
 	defer func() {
 		if err := recover(); err != nil {
 			xl.Errorf("panic error: %v", err)
-			verifhook.At("pool.offer", "ctl", verifhook.ID(ctl), "result", "recovered", "len", 0)
+			verifhook.At("pool.offer", "ctl", verifhook.ID(ctl), "result", "recovered", "len", 0, "w", conn.RemoteAddr().String())
 			xl.Errorf(string(debug.Stack()))
 		}
 	}()
@@ -249,11 +249,11 @@ func (ctl *Control) RegisterWorkConn(conn net.Conn) error {
 	select {
 	case ctl.workConnCh <- conn:
 		xl.Debugf("new work connection registered")
-		verifhook.At("pool.offer", "ctl", verifhook.ID(ctl), "result", "queued", "len", len(ctl.workConnCh))
+		verifhook.At("pool.offer", "ctl", verifhook.ID(ctl), "result", "queued", "len", len(ctl.workConnCh), "w", conn.RemoteAddr().String())
 		return nil
 	default:
 		xl.Debugf("work connection pool is full, discarding")
-		verifhook.At("pool.offer", "ctl", verifhook.ID(ctl), "result", "full", "len", len(ctl.workConnCh))
+		verifhook.At("pool.offer", "ctl", verifhook.ID(ctl), "result", "full", "len", len(ctl.workConnCh), "w", conn.RemoteAddr().String())
 		return fmt.Errorf("work connection pool is full, discarding")
 	}
 }
@@ -277,10 +277,11 @@ func (ctl *Control) GetWorkConn() (workConn net.Conn, err error) {
 	case workConn, ok = <-ctl.workConnCh:
 		if !ok {
 			err = pkgerr.ErrCtlClosed
+			verifhook.At("pool.get", "ctl", verifhook.ID(ctl), "path", "closed", "len", 0, "w", "")
 			return
 		}
 		xl.Debugf("get work connection from pool")
-		verifhook.At("pool.get", "ctl", verifhook.ID(ctl), "path", "fast", "len", len(ctl.workConnCh))
+		verifhook.At("pool.get", "ctl", verifhook.ID(ctl), "path", "fast", "len", len(ctl.workConnCh), "w", workConn.RemoteAddr().String())
 	default:
 		// no work connections available in the poll, send message to frpc to get more
 		if err := ctl.msgDispatcher.Send(&msg.ReqWorkConn{}); err != nil {
@@ -293,13 +294,14 @@ func (ctl *Control) GetWorkConn() (workConn net.Conn, err error) {
 			if !ok {
 				err = pkgerr.ErrCtlClosed
 				xl.Warnf("no work connections available, %v", err)
+				verifhook.At("pool.get", "ctl", verifhook.ID(ctl), "path", "closed", "len", 0, "w", "")
 				return
 			}
-			verifhook.At("pool.get", "ctl", verifhook.ID(ctl), "path", "slow", "len", len(ctl.workConnCh))
+			verifhook.At("pool.get", "ctl", verifhook.ID(ctl), "path", "slow", "len", len(ctl.workConnCh), "w", workConn.RemoteAddr().String())
 
 		case <-time.After(time.Duration(ctl.serverCfg.UserConnTimeout) * time.Second):
 			err = fmt.Errorf("timeout trying to get work connection")
-			verifhook.At("pool.get", "ctl", verifhook.ID(ctl), "path", "timeout", "len", len(ctl.workConnCh))
+			verifhook.At("pool.get", "ctl", verifhook.ID(ctl), "path", "timeout", "len", len(ctl.workConnCh), "w", "")
 			xl.Warnf("%v", err)
 			return
 		}
@@ -348,6 +350,7 @@ func (ctl *Control) worker() {
 	verifhook.At("ctl.teardown.poolclosed", "ctl", verifhook.ID(ctl), "run_id", ctl.loginMsg.RunID)
 	for workConn := range ctl.workConnCh {
 		workConn.Close()
+		verifhook.At("ctl.teardown.drain", "ctl", verifhook.ID(ctl), "w", workConn.RemoteAddr().String())
 	}
 
 	for _, pxy := range ctl.proxies {
